@@ -99,15 +99,16 @@ theorem retained_bounded_exists :
 
 /-- the one environ the request object keeps is the last request's -/
 theorem request_slot_is_last (app : App) (st : AppState) (r : HReq) :
-    (serve app st r).1.slots.req = some { id := r.req.id, urlRepr := r.req.urlRepr } := by
-  have hreq : (resolve st.shared r).1.id = r.req.id ∧ (resolve st.shared r).1.urlRepr = r.req.urlRepr := by
+    (serve app st r).1.slots.req = some { id := r.req.id, urlRepr := r.req.urlRepr, json := r.req.json } := by
+  have hreq : (resolve st.shared r).1.id = r.req.id ∧ (resolve st.shared r).1.urlRepr = r.req.urlRepr ∧
+      (resolve st.shared r).1.json = r.req.json := by
     unfold resolve
     split
-    · split <;> exact ⟨rfl, rfl⟩
-    · exact ⟨rfl, rfl⟩
+    · split <;> exact ⟨rfl, rfl, rfl⟩
+    · exact ⟨rfl, rfl, rfl⟩
   unfold serve
   simp only
-  rw [wsgi_req, hreq.1, hreq.2]
+  rw [wsgi_req, hreq.1, hreq.2.1, hreq.2.2]
 
 /-! ### NonVacuity: concrete histories -/
 section NonVacuity
@@ -117,7 +118,7 @@ def exApp : App :=
 
 def mkReq (id : Nat) (pathOK : Bool) (route : Route) : Req :=
   { id := id, isHead := false, fileWrapper := false, pathOK := pathOK, path := "/x".toList,
-    urlRepr := ("'http://h/x" ++ toString id ++ "'").toList, route := route }
+    urlRepr := ("'http://h/x" ++ toString id ++ "'").toList, json := false, route := route }
 
 /-- request 1 sets a cookie, a header and a status -/
 def cookieReq : HReq :=
